@@ -399,7 +399,7 @@ def classify_report(err, rc):
 
 
 class Run:
-    __slots__ = ("rid", "k", "events", "complete", "abort", "stderr", "prog", "script", "leak")
+    __slots__ = ("rid", "k", "events", "complete", "abort", "stderr", "prog", "script", "leak", "calls")
 
     def __init__(self, rid, k):
         self.rid = rid
@@ -411,6 +411,7 @@ class Run:
         self.prog = None
         self.script = None
         self.leak = None
+        self.calls = 0
 
     def rets(self):
         return [e for e in self.events if e[0] == "R"]
@@ -454,6 +455,8 @@ def parse_log(path):
                 order.append(rid)
             elif t == "X":
                 cur.complete = True
+                parts = line.split()
+                cur.calls = int(parts[1]) if len(parts) > 1 else 0
             elif t == "I":
                 _, which, name, a, b = line.split()
                 cur.events.append(("I", which, name, int(a), int(b)))
